@@ -335,6 +335,10 @@ class Waiting(State):
 
     def interrupt(self, reason: Any) -> None:
         # This will cause the future in execute() to raise the exception
+        if self._waiting_future.done():
+            # Already resumed or interrupted: execute() is about to return, the pending interrupt action of the
+            # process is carried out at the end of the step
+            return
         self._waiting_future.set_exception(reason)
 
     async def execute(self) -> State:  # type: ignore
